@@ -36,32 +36,6 @@ example : ∃ d, fromBytes
       comps := [{ imports := [("f".toList, .func 0)], exports := [("i".toList, .instance 0)] }] } = .ok d := by
   exact ⟨_, rfl⟩
 
-/-- Shape of a successful `fromBytes`: the world is the last world of the collection and lists
-the converted imports and exports. -/
-theorem fromBytes_world (w : WTypes) (d : Decoded) (h : fromBytes w = .ok d) :
-    ∃ root st st' imports exports,
-      w.comps[w.root]? = some root ∧
-      topItems w w.fuel {} root.imports = .ok (st, imports) ∧
-      topItems w w.fuel st root.exports = .ok (st', exports) ∧
-      d.types.worlds[d.world]? =
-        some { id := none, uses := [], imports := collectMap imports, exports := collectMap exports } := by
-  unfold fromBytes at h
-  split at h
-  · cases h
-  · rename_i root hroot
-    simp only at h
-    split at h
-    · rename_i st imports himp
-      split at h
-      · rename_i st' exports hexp
-        simp only [addWorld, addInterface] at h
-        cases h
-        exact ⟨root, st, st', imports, exports, hroot, himp, hexp, by simp⟩
-      · cases h
-      · cases h
-    · cases h
-    · cases h
-
 /-- **decode_lists_exact.**  The world of a decoded package lists exactly the component's
 imports and exports: the same names, in the same order, each with the same sort (module,
 function, value, type, instance, component).  (Names of a valid component are pairwise
@@ -145,14 +119,6 @@ def ResInv (w : WTypes) (st : St) : Prop :=
   (∀ r id, lookup st.cache (.any (.res r)) = some (.resource id) →
     ∃ e s, w.res[r]? = some e ∧ lookup st.resourceMap e.base = some s ∧
       st.types.resolveResource 2 id = some s)
-
-theorem getElem?_append_lt' {α : Type} (l : List α) (x : α) (i : Nat) (a : α) (h : l[i]? = some a) :
-    (l ++ [x])[i]? = some a := by
-  have hi : i < l.length := by
-    rcases Nat.lt_or_ge i l.length with hlt | hge
-    · exact hlt
-    · rw [List.getElem?_eq_none hge] at h; cases h
-  rw [List.getElem?_append_left hi]; exact h
 
 /-- **resource_identity_preserved** (step form).  `TypeConverter::resource` keeps the invariant,
 and the resource it returns resolves to the root recorded for the base resource of the
